@@ -218,6 +218,11 @@ func c06Run(role int64, withPending bool, frame []byte) (obs []int64, verdictKin
 		}
 	}
 	frames, calls := c05Inject(role, string(frame))
+	if injectPanicked != "" {
+		monKind, monDetail = "C06-panic", "the message handler panicked: "+injectPanicked
+		c06Reset(role)
+		return []int64{-7}, verdictKind, tags, monKind, monDetail
+	}
 	completed := cbFired
 	// observation: [reply written; code; pending completed; request handler invoked]
 	switch {
